@@ -208,11 +208,9 @@ def gen_images(ctx):
     for tag, (n, kf, img) in probes.items():
         im.add(n, kf, img, 'probe:' + tag)
     # --- exhaustive 2-slot space ---------------------------------------------------------------------------------------
-    pays2 = [U, 2 * U] if ctx.thorough else [U]
-    eszs2 = [0, U, 2 * U, 3 * U] if ctx.thorough else [0, U, 2 * U]
+    pays2 = [U]                       # (the thorough tier spends its budget on the complete 3-slot space x3 instead)
+    eszs2 = [0, U, 2 * U]
     for kf in ([0, 1], [0, 0]):
-        if kf == [0, 0]:                                    # colliding keys: the smaller field domain in both tiers
-            pays2, eszs2 = [U], [0, U, 2 * U]
         v0 = slot_values(2, 0, (1, 2), pays2, eszs2)
         v1 = slot_values(2, 1, (1, 2), pays2, eszs2)
         for a in v0:
@@ -241,10 +239,10 @@ def gen_images(ctx):
                         v['bad'] = rnd.choice('zg')
                     img.append(v)
             im.add(n, kf, img, tag)
-    sample(3, 16000 if ctx.thorough else 5000, 2, 's3')
-    sample(4, 6000 if ctx.thorough else 1500, 2, 's4')
-    sample(4, 3000 if ctx.thorough else 500, 3, 's4k3')
-    sample(6, 1500 if ctx.thorough else 300, 3, 's6k3')
+    sample(3, 9000 if ctx.thorough else 5000, 2, 's3')
+    sample(4, 4000 if ctx.thorough else 1500, 2, 's4')
+    sample(4, 2000 if ctx.thorough else 500, 3, 's4k3')
+    sample(6, 1000 if ctx.thorough else 300, 3, 's6k3')
     # --- the MC quick space through the real code (thorough): N=3, two keys in different anchors, pay 1, esz in {0, 2} ----
     if ctx.thorough:
         vs = [slot_values(3, s, (1, 2), [U], [0, 2 * U], bad_meta=False) for s in range(3)]
@@ -586,8 +584,8 @@ def model_check(ctx):
     # *_cur: the machine as the tree is now (anchored + size checks of e2d5c44/204d147, no leftovers check): C57 up to the
     # foreign-slot shape (F6c); *_fixed: with the leftovers check + undo as well: strict C57; *_old (thorough): before the repairs
     runs = [('MC_RockRebuild_q_cur.cfg', 900), ('MC_RockRebuild_q_fixed.cfg', 900)]
-    if ctx.thorough:
-        runs += [('MC_RockRebuild_t_cur.cfg', 3000), ('MC_RockRebuild_t_fixed.cfg', 3000),
+    if ctx.thorough:          # the t space (payload sizes {1,2}) contains the q space
+        runs = [('MC_RockRebuild_t_cur.cfg', 3000), ('MC_RockRebuild_t_fixed.cfg', 3000),
                  ('MC_RockRebuild_c_cur.cfg', 3000), ('MC_RockRebuild_c_fixed.cfg', 3000), ('MC_RockRebuild_q_old.cfg', 3000)]
     for cfg, to in runs:
         res = vlib.tlc_must_pass(ctx, mod, os.path.join(SPEC, cfg), timeout=to, args=['-noGenerateSpecTE'])
@@ -603,7 +601,7 @@ def run(ctx):
     items = gen_images(ctx)
     lines = [case_line(i, n, kf, img) for i, (n, kf, img, tag) in enumerate(items)]
     ctx.log('%d images' % len(items))
-    outs = run_driver_cases(ctx, exe, lines, 'img', procs=(max(2, min(12, vlib.NCPU - 4)) if ctx.thorough else None))
+    outs = run_driver_cases(ctx, exe, lines, 'img', procs=None)
     skipped = [i for i, o in enumerate(outs) if o.get('skipped')]
     if skipped:
         ctx.cov['images_skipped_after_repeated_crashes'] = len(skipped)
